@@ -8,7 +8,7 @@ SEPS = ["", " ", "\t", "\n", "\r\n", "  "]
 
 
 def check_spelleq(run, vecs):
-    obs, hooks = common.run_pool(vecs, deadline_ms=1000)
+    obs, hooks = common.run_pool(vecs, deadline_ms=4000)
     run.hooks = hooks
     for v in vecs:
         o = obs[v["id"]]
@@ -89,7 +89,7 @@ def check(run, only=None):
             return "C14 %s %s" % (v["fam"], common.crash_sig(o))
         err = ((o["obs"].get("err") or {}).get("msg") or "")[:60]
         return "C14 %s %s %s" % (v["fam"], why.split(" at event")[0], err)
-    common.replay_vectors(run, extra, check_log=False, sigfn=sigfn, deadline_ms=1000)
+    common.replay_vectors(run, extra, check_log=False, sigfn=sigfn, deadline_ms=4000)
     run.traces += len(extra)
 
 
